@@ -254,3 +254,36 @@ def reader_width_agreement(ctx, s, fns, what="event", spec=None):
         s.add("S-SIBLING", anchor, "field-width", what, anchor.sp, PROVED,
               "%d positions of the packed %s are each read with one width by all their readers" % (len(groups), what))
     ctx.instances["S-SIBLING.%s reader positions" % what] = len(groups)
+
+
+def reserved_slot_written(ctx, s, name, cursor_param, buf_param):
+    """S-COVER: a function that steps its output cursor over a slot before filling in the rest (the per-tag string count)
+    writes that slot - at the cursor's value on entry - on every path to Ok.  Otherwise the slot keeps whatever the caller's
+    buffer held."""
+    from ..sym import strip_sites
+    fn = ctx.fn(name)
+    an = ctx.E.an(fn)
+    ctx.functions.add(fn.path)
+    entry = ("init", ("deref", ("param", cursor_param)))
+    puts = []
+    for b, info in an.calls():
+        if s.nice(info["callee"] or "") == "pocket_types::json::put" and info["args"][0] == ("param", buf_param):
+            if strip_sites(info["args"][1]) == entry:
+                puts.append(b)
+    # direct stores output[entry..entry+2].copy_from_slice(..) count as well
+    for b, info in an.calls():
+        if (info["base"] or "").rsplit("::", 1)[-1] == "copy_from_slice":
+            d = info["args"][0]
+            if d[0] == "slice" and d[1] == ("param", buf_param) and strip_sites(d[2]) == entry:
+                puts.append(b)
+    oks = [n for n, k, v in s.return_kinds(fn) if k == "ok"]
+    good = []
+    for b in puts:
+        good += s.ok_edges_of_call(fn, b) or [b]
+    reach = s.reach(fn, [an.cfg.entry], avoid=good)
+    ok = bool(oks) and bool(puts) and not any(n in reach for n in oks)
+    verdict = PROVED if ok else (VIOLATION if oks else UNDECIDED)
+    s.add("S-COVER", fn, "reserved-slot-written", name.split("::")[-1], fn.sp, verdict,
+          "the slot the cursor stepped over on entry (the string count) is written on every path to Ok" if ok else
+          "a path returns Ok without writing the slot reserved at the entry cursor position (the tag's string count): the field "
+          "keeps whatever the caller's buffer held")
